@@ -21,7 +21,7 @@ PROPS_PRE = {
 }
 
 PROPS = dict(PROPS_PRE)
-for _pid, _scn in [('C17','C17'),('C18','C18'),('C04','C04'),('C09','C09'),('C08','C08'),('C14','C14'),('C05','C05'),('C06','C06'),('C07','C07'),('C10','C10'),('C11','C11'),('C12','C12'),('C15','C15')]:
+for _pid, _scn in [('C19','C19'),('C17','C17'),('C18','C18'),('C04','C04'),('C09','C09'),('C08','C08'),('C14','C14'),('C05','C05'),('C06','C06'),('C07','C07'),('C10','C10'),('C11','C11'),('C12','C12'),('C15','C15')]:
     PROPS[_pid] = dict(level='exploration', rule=NONTRIVIAL, assumptions=COMMON_ASSUMPTIONS,
                        legs=legs(_scn, 6000, 60, 400000, 1500), reports=[_pid])
 
@@ -33,6 +33,8 @@ def add_leg(pid, scn, q_runs, q_budget, t_runs, t_budget):
 add_leg('C18', 'D_deadline_rearm', 1500, 30, 60000, 300)
 add_leg('C15', 'C15b', 4000, 60, 200000, 900)
 add_leg('C17', 'C17w', 3000, 60, 200000, 900)
+add_leg('C19', 'D_heartbeat', 1, 10, 1, 10)
+add_leg('C19', 'D_dup_sack', 1, 10, 1, 10)
 
 SIM_NOTE = ("Trusted base: the instrumenter and simulator runtime under /verif (scheduling points at every lock/cond/channel/select/goroutine start; "
             "seeded select and map-iteration order), Go 1.26.8 testing/synctest, the harness' own decoder and reference models. "
@@ -110,6 +112,13 @@ MANIFEST_TEXT.update({
                 note=SIM_NOTE),
 })
 
+MANIFEST_TEXT.update({
+    'C19': dict(design_ref='DESIGN.md §5 C19',
+                technique='deterministic simulation: virtual-time log of every timer callback; RTO bounds and RFC 6298 / Karn update judged at every scheduling step from wire round-trip samples; total outages for the back-off law; SACK deadlines from the wire',
+                text='In every run of the C19 scenario (and of the other data-path scenarios) RTO must stay within [1 s, RTO.max] after every step, every SRTT change must equal the RFC 6298 update for the round trip of a chunk that was transmitted exactly once and newly acknowledged in that step (Karn), every accepted DATA packet must be covered by a SACK within 200 ms and at once when it left a gap or was a duplicate; total outages of 14 RTO.max with DATA, SHUTDOWN or RECONFIG outstanding must show timer expiries doubling up to RTO.max and never stopping. Handshake retry bounds are checked by C04, the heartbeat clause by a directed leg. Evidence, not proof.',
+                note=SIM_NOTE),
+})
+
 # properties whose check is not built yet (kept current as the work proceeds)
 NOT_BUILT = {pid: 'check not built yet in this session (work in progress, see DESIGN.md §10)' for pid in
-             ['C03','C13','C16','C19','C20']}
+             ['C03','C13','C16','C20']}
